@@ -141,7 +141,10 @@ fn run_wired(w: &World, req: &Request, wi: &Wiring, tag: usize) -> Observed {
         Src::FileArg => cmd.stdin(Stdin::Null),
         Src::Stdin => cmd.stdin(Stdin::Bytes(req.input.clone())),
         Src::StdinDribble => {
-            let sizes: Vec<usize> = (0..64).map(|i| 1 + (i * 7919 + req.input.len()) % 50_000).collect();
+            // a small first piece, then a pause longer than the key derivation the tool performs before its
+            // first read (size 0 = pause), so that the first read really is short; then irregular pieces
+            let mut sizes: Vec<usize> = vec![1 + req.input.len() % 1000, 0];
+            sizes.extend((0..64).map(|i| 1 + (i * 7919 + req.input.len()) % 50_000));
             cmd.stdin(Stdin::Dribble(req.input.clone(), sizes))
         }
     };
@@ -442,6 +445,75 @@ pub fn run(ctx: &Ctx) {
             }
         }
     }
+    // an explicit -k must not be overridden by a stale KESTREL_KEYRING
+    {
+        let dir = w.wd.path.join("both");
+        let _ = std::fs::create_dir_all(&dir);
+        std::fs::write(dir.join("kr.txt"), &kr_ab).unwrap();
+        std::fs::write(dir.join("p.txt"), b"both ways").unwrap();
+        let o1 = Cmd::new(&dir, &["encrypt", "p.txt", "-t", &b.name, "-f", &a.name, "-o", "o1.ktl", "-k", "kr.txt", "--env-pass"]).pass(&a.password).run();
+        let o2 = Cmd::new(&dir, &["encrypt", "p.txt", "-t", &b.name, "-f", &a.name, "-o", "o2.ktl", "-k", "kr.txt", "--env-pass"]).pass(&a.password).env("KESTREL_KEYRING", "/nonexistent/stale-keyring.txt").run();
+        ctx.eval();
+        if o1.exit != o2.exit {
+            ctx.violation("C12:outcome-depends-on-wiring:explicit-keyring-option-overridden-by-environment", json!({"with_k_only": o1.exit.describe(), "with_k_and_stale_env": o2.exit.describe(), "stderr": o2.stderr_s()}));
+        } else {
+            ctx.seen("explicit -k with a stale KESTREL_KEYRING: same outcome as -k alone");
+            ctx.distinct("both-k-and-env");
+        }
+    }
+    // sinks that accept only part of the output (file size limit, SIGXFSZ ignored: a real short write
+    // followed by EFBIG): exit 0 only if the whole output arrived, whichever way the output is wired
+    {
+        let pt = &pts[2].1;
+        let f = refspec::encode_key_file(&a.sk, &a.pk, &b.pk, &rng.arr32(), &rng.arr32(), pt, &refspec::natural_chunking(pt.len(), 65536)).unwrap();
+        let full_blocks = (pt.len() as u64 + 511) / 512;
+        let enc_blocks = (pt.len() as u64 + 132 + 32 * 3 + 511) / 512;
+        let mut jobs: Vec<(String, bool, u64, bool)> = Vec::new(); // (what, decrypt?, limit, via -o?)
+        for via_o in [true, false] {
+            for lim in [10u64, 128, 200, full_blocks - 1, full_blocks, full_blocks + 50] {
+                jobs.push((format!("decrypt, limit {} of {} blocks", lim, full_blocks), true, lim, via_o));
+            }
+            for lim in [1u64, 129, enc_blocks - 1, enc_blocks, enc_blocks + 5] {
+                jobs.push((format!("encrypt, limit {} of {} blocks", lim, enc_blocks), false, lim, via_o));
+            }
+        }
+        let res = crate::util::par_map(jobs.len(), crate::util::ncpu(), |j| {
+            let (what, dec, lim, via_o) = &jobs[j];
+            let dir = w.wd.path.join(format!("lim{}", j));
+            let _ = std::fs::create_dir_all(&dir);
+            std::fs::write(dir.join("kr.txt"), &kr_ab).unwrap();
+            std::fs::write(dir.join("in.ktl"), &f).unwrap();
+            std::fs::write(dir.join("in.bin"), pt).unwrap();
+            let mut args: Vec<&str> = if *dec { vec!["decrypt", "in.ktl", "-t", &b.name, "-k", "kr.txt", "--env-pass"] } else { vec!["encrypt", "in.bin", "-t", &b.name, "-f", &a.name, "-k", "kr.txt", "--env-pass"] };
+            if *via_o {
+                args.extend_from_slice(&["-o", "out.bin"]);
+            }
+            let mut cmd = Cmd::new(&dir, &args).pass(if *dec { &b.password } else { &a.password }).fsize_limit(*lim);
+            if !*via_o {
+                cmd = cmd.stdout(Stdout::File(dir.join("out.bin")));
+            }
+            let o = cmd.run();
+            let out = std::fs::read(dir.join("out.bin")).unwrap_or_default();
+            let _ = std::fs::remove_dir_all(&dir);
+            (what.clone(), *dec, *lim, *via_o, o, out, cmd.describe())
+        });
+        for (what, dec, lim, via_o, o, out, desc) in res {
+            ctx.eval();
+            let complete = if dec { &out == pt } else { matches!(refspec::decode_key_file(&out, &b.sk, &b.pk), Ok(d) if d.body.complete() && &d.body.plaintext() == pt) };
+            let needed = if dec { full_blocks } else { enc_blocks };
+            let case = || json!({"case": what, "command": desc, "exit": o.exit.describe(), "stderr": o.stderr_s(), "output_bytes": out.len(), "output_complete": complete, "via": if via_o { "-o" } else { "stdout redirected to a file" }});
+            match (&o.exit, complete) {
+                (Exit::Code(0), true) if lim >= needed => ctx.seen("size-limited sink: limit not reached, exit 0 with complete output"),
+                (Exit::Code(1), false) if lim < needed && o.has_error_line() => {
+                    ctx.seen(&format!("size-limited sink ({}): short write then failure -> exit 1", if via_o { "-o" } else { "stdout" }));
+                    ctx.distinct(&format!("fsize|{}|{}", what, via_o));
+                }
+                (Exit::Code(0), false) => ctx.violation(&format!("C12:{}:exit-0-although-the-output-was-cut-short-by-the-sink", if dec { "decrypt" } else { "encrypt" }), case()),
+                (Exit::Timeout, _) => ctx.inconclusive("C12: timeout under a file size limit"),
+                _ => ctx.violation(&format!("C12:{}:unexpected-outcome-under-a-size-limited-sink", if dec { "decrypt" } else { "encrypt" }), case()),
+            }
+        }
+    }
     // failing sinks and usage errors must not exit 0
     let wd = &w.wd;
     wd.write("kr.txt", kr_ab.as_bytes());
@@ -486,4 +558,6 @@ pub fn run(ctx: &Ctx) {
     ctx.require("password decrypt -> exit", 10);
     ctx.require("decrypt: sender named by its keyring entry", 15);
     ctx.require("decrypt: unknown sender reported with its encoding", 3);
+    ctx.require("size-limited sink (-o)", 4);
+    ctx.require("size-limited sink (stdout)", 4);
 }
